@@ -106,6 +106,16 @@ func cmdC17(r *RNG, n int, e *Emitter, args []string) {
 	for i := 0; i < n; i++ {
 		clearEvents()
 		s, c, info := genPair(r)
+		if i%5 == 2 {
+			// tie-heavy lattice polygons (shared vertices, exactly collinear tops, crossings on lattice points): the
+			// order-dependent tie-breaks of the sweep are what respelling exercises
+			s, c = genLatticeScaled(r)
+			info = GenInfo{Kinds: []string{"lattice-scaled"}}
+		}
+		if i%5 == 4 {
+			s, c = insertCollinear(r, s), insertCollinear(r, c)
+			info.Kinds = append(info.Kinds, "collinear-runs")
+		}
 		ct := clip.ClipType(1 + r.Intn(4))
 		fr := clip.FillRule(r.Intn(4))
 		var base, again clip.Paths64
